@@ -420,6 +420,7 @@ def run(ctx):
     comparisons_pair_this_with_other(ctx)
     function_scopes_hang_under_the_declarators_scope(ctx)
     nullable_members_are_ordered_when_only_one_is_null(ctx)
+    identity_compares_whole_members(ctx)
     rebuild_rules(ctx, "R06.5")
     changed_flag_rules(ctx, "R06.6")
     ctx.rule("R06.1", "every field a (non-copy) constructor initialises from a parameter is read by the class's structural is_less() and is_equal()")
@@ -939,3 +940,36 @@ def nullable_members_are_ordered_when_only_one_is_null(ctx):
                    "a return orders the two objects by the pointers themselves" if ok else
                    "%s is tested against nullptr but no return orders an object that has it against one that has not" % fl.split("::")[-1])
     ctx.floor("R06.16", "nullable members in is_less functions", n, 3)
+
+
+def _masked_member_comparisons(f):
+    out = []
+    for y in f.walk():
+        if y.get("k") == "bin" and y.get("op") in ("==", "!=", "<", ">", "<=", ">="):
+            for side in (y.get("x"), y.get("y")):
+                s0 = strip_casts(peel(side)) if side is not None else None
+                if s0 is not None and s0.get("k") == "bin" and s0.get("op") in ("&", "|", ">>", "<<", "%", "/") and any(z.get("k") == "mem" for z in walk(s0)):
+                    out.append(y)
+                    break
+    return out
+
+
+def identity_compares_whole_members(ctx):
+    """R06.17: is_equal()/is_less() decide which types are ONE type for CPPType::new_type().  A comparison that looks at a
+    member only through a mask (`_flags & ~F_signed`) declares every bit outside the mask irrelevant to identity - for
+    every type the class can represent.  `signed` is redundant for int; for char it is the whole difference between
+    `char` and `signed char`.  The identity functions of the parser's classes compare members whole.  (Seed S10-C06.)"""
+    db = ctx.db
+    ctx.rule("R06.17", "no comparison in an is_equal()/is_less() of the parser's declaration classes takes a member through a mask, shift or division")
+    probe_fn = type("P", (), {"walk": lambda self: [{"k": "bin", "op": "==", "x": {"k": "bin", "op": "&", "x": {"k": "mem", "n": "C::_flags"}, "y": {"k": "int", "v": 3}}, "y": {"k": "int", "v": 0}}]})()
+    if len(_masked_member_comparisons(probe_fn)) != 1:
+        ctx.broken("R06.17: the detector no longer recognises its own example")
+    n = 0
+    for f in db.functions:
+        if "/cppparser/" not in f.file or not (f.name.endswith("::is_equal") or f.name.endswith("::is_less")):
+            continue
+        n += 1
+        bad = _masked_member_comparisons(f)
+        ctx.ob("R06.17", "%s|whole-members" % f.name, not bad, f.loc(bad[0]) if bad else f.loc(),
+               "members are compared whole" if not bad else "`%s`: part of the member is excluded from the type's identity" % show(bad[0])[:70])
+    ctx.floor("R06.17", "identity functions examined", n, 25)
